@@ -38,6 +38,8 @@ EFFECTS = {
     "f + f:x": [["f"], ["f", "x"]],
     "x + f:x": [["x"], ["f", "x"]],
     "f + x + 1": [["f"], ["x"]],
+    "C(f, Sum)": [["C(f, Sum)"]],
+    "S(f2) + x": [["S(f2)"], ["x"]],
 }
 GROUPINGS = {
     "g": [["g"]],
@@ -49,7 +51,7 @@ GROUPINGS = {
     "C(k)": [["C(k)"]],
     "k": [["k"]],  # a plain integer column used as grouping factor
 }
-CATS = {"f", "f2"}
+CATS = {"f", "f2", "C(f, Sum)", "S(f2)"}
 _FR = {}
 _SEED = 0
 
@@ -121,7 +123,12 @@ def formula_of(case):
     return "y ~ x + " + " + ".join(items)
 
 
+SUMC = {"C(f, Sum)": "f", "S(f2)": "f2"}
+
+
 def atom_value(atom, df):
+    if atom in SUMC:
+        return frames.indicators(df[SUMC[atom]])[0]
     if atom == "scale(x)":
         x = df["x"].to_numpy(dtype=float)
         return ((x - x.mean()) / x.std())[:, None]
@@ -158,7 +165,14 @@ def label_value(lab, df):
         else:
             name, _, lvl = piece.partition("[")
             lvl = lvl[:-1]
-            val = val * np.array([1.0 if str(v) == lvl else 0.0 for v in df[name]])
+            if name in SUMC:  # sum coding: indicator of the level minus indicator of the omitted (last) level; 'mean' is the constant
+                col = df[SUMC[name]]
+                last = sorted(set(col))[-1]
+                if lvl == "mean":
+                    continue
+                val = val * (np.array([1.0 if str(v) == lvl else 0.0 for v in col]) - np.array([1.0 if v == last else 0.0 for v in col]))
+            else:
+                val = val * np.array([1.0 if str(v) == lvl else 0.0 for v in df[name]])
     return val
 
 
